@@ -109,9 +109,10 @@ func getStoreRoles(p *ir.Prog) *storeRoles {
 			s.constructors[f] = true
 		}
 	}
-	for round := 0; round < 2; round++ {
+	for round := 0; round < 3; round++ {
 		for _, f := range p.PkgFuncs("chain") {
-			if s.constructors[f] || f.Obj.Type().(*types.Signature).Recv() != nil {
+			// (unexported methods too: a constructor's body split into steps on the store under construction)
+			if s.constructors[f] || (f.Obj.Type().(*types.Signature).Recv() != nil && exported(f)) {
 				continue
 			}
 			callers, all := 0, true
@@ -158,7 +159,14 @@ func c03r1(c *Ctx) {
 			case call.Fn == r.storeFlush.Origin():
 				c.Visit(1)
 				ob := c.Ob(top, "manager-flush-in-walker", call.Pos())
-				ob.Check(top == r.reorgTo, nil, "Store.Flush is called at %s outside the tip walker", c.P.Pos(call.Pos()))
+				// in the walker itself, or in a helper whose only role is to be part of the walker (absorbed by it)
+				inWalker := top == r.reorgTo
+				for _, vc := range r.view(r.reorgTo).CallsTo(true, r.storeFlush) {
+					if c.P.OrigNode(vc.Expr) == ast.Node(call.Expr) && r.vs.Absorbed[top] {
+						inWalker = true
+					}
+				}
+				ob.Check(inWalker, nil, "Store.Flush is called at %s outside the tip walker", c.P.Pos(call.Pos()))
 			}
 		}
 	}
@@ -224,7 +232,7 @@ func c03r3(c *Ctx) {
 	storeWrites := []*types.Func{r.storeAddBlock, r.storeAddState, r.storePrune, c.P.Method("chain", "Store", "OverwriteExpiringFileContractIDs")}
 	// apply step
 	{
-		f := r.applyTip
+		f := r.view(r.applyTip)
 		g := f.Graph()
 		c.VisitGraph(f)
 		for _, ac := range f.CallsTo(false, r.storeApply) {
@@ -261,7 +269,7 @@ func c03r3(c *Ctx) {
 		}
 	}
 	{
-		f := r.revertTip
+		f := r.view(r.revertTip)
 		g := f.Graph()
 		c.VisitGraph(f)
 		for _, rc := range f.CallsTo(false, r.storeRevert) {
@@ -447,7 +455,7 @@ func checkRevertRemovesEntry(c *Ctx, s *storeRoles, putHeight *ir.Func, bestWrit
 
 func c03r5(c *Ctx) {
 	r := getChainRoles(c.P)
-	f := r.reorgTo
+	f := r.view(r.reorgTo)
 	g := f.Graph()
 	c.VisitGraph(f)
 	ob := c.Ob(f, "success-implies-flushed", f.Body.Pos())
